@@ -196,6 +196,211 @@ def makes_bad_struct() -> int:
     return HoldsBad(BadS(array(1.5), 1), 2).m
 '''
 
+# ----------------------------------------------------------------------------- scoped pool section
+# Definitions created inside Python functions (local scopes) and definitions holding nested functions:
+# a Hypothesis-drawn spec (see scoped_specs) rendered to source.  Bare names are drawn from a small
+# universe so that the same name is frequently a module-level guppy function, a nested function of
+# some definition in another scope, a local guppy function of a scope, or bound nowhere.
+SC_GLOBALS = ["sg0", "sg1", "sg2", "sg3"]   # module-level guppy functions int -> int
+SC_FREE = "sfree"                            # bound nowhere
+SC_PRIVATE = ["p0", "p1", "p2"]              # names used for nested functions only
+
+# Input classes left out by construction (AUTHORING requirement 1), each behind this switch:
+#  same_scope_nested_name_clash: a non-capturing recursive nested function N of definition D is made
+#    visible by writing N into the namespace of the frame D was created in (f_locals).  On the unchanged
+#    tree that entry stays there for the rest of the session: every OTHER definition created by the same
+#    frame (for module-level D: the whole module) that uses the bare name N as a global resolves it to
+#    the consumed nested function of the earlier check (internal KeyError: DefId) - unless N is a local
+#    variable of that Python function, which the next frame.f_locals sync restores.  Reported as a
+#    finding (bucket ...nested_name_leak.same_scope); the generator renames such nested functions to a
+#    private name while the switch is set.
+EXCLUDE = {"same_scope_nested_name_clash"}
+
+
+def scoped_specs(st):
+    gname = st.sampled_from(SC_GLOBALS * 2 + [SC_FREE])
+    nname = st.sampled_from(SC_GLOBALS + [SC_FREE] + SC_PRIVATE)
+    nested = st.fixed_dictionaries({
+        "name": nname, "rec": st.booleans(), "cap": st.sampled_from([False, False, True]),
+        "calls": st.sampled_from(SC_GLOBALS * 2 + [None])})
+    defn = st.fixed_dictionaries({
+        "nested": st.lists(nested, min_size=0, max_size=3, unique_by=lambda n: n["name"]),
+        "uses": st.lists(gname, min_size=0, max_size=2, unique=True),
+        "dep": st.integers(-4, 4),  # which earlier visible scoped definition is called (mod count; <= 0: none)
+        "noarg": st.booleans()})
+
+    @st.composite
+    def spec(draw):
+        scopes = [{"level": "module", "shadows": [], "defs": draw(st.lists(defn, min_size=2, max_size=2))}]
+        for _ in range(draw(st.integers(2, 3))):
+            scopes.append({"level": "local",
+                           "shadows": draw(st.lists(st.sampled_from(SC_GLOBALS), max_size=1)),
+                           "defs": draw(st.lists(defn, min_size=2, max_size=3))})
+        return {"scopes": scopes}
+
+    return spec()
+
+
+def scoped_normalise(spec, exclude=EXCLUDE):
+    """name the definitions, resolve the `dep` draws, drop uses shadowed by an own nested function and
+    (while excluded) rename nested functions that would clash within their own frame.
+    -> (spec, number of renamed nested functions)"""
+    spec = json.loads(json.dumps(spec))
+    mod_names = []
+    for si, sc in enumerate(spec["scopes"]):
+        earlier = []
+        for di, d in enumerate(sc["defs"]):
+            d["id"] = f"s{si}d{di}"
+            own = {n["name"] for n in d["nested"]}
+            d["uses"] = [u for u in d["uses"] if u not in own]
+            for n in d["nested"]:
+                if n["calls"] in own:
+                    n["calls"] = None
+            visible = earlier + ([] if sc["level"] == "module" else mod_names)
+            k = d.pop("dep", 0) if "dep" in d else None
+            if k is not None:
+                d["calls_defs"] = [visible[(k - 1) % len(visible)]] if (k > 0 and visible) else []
+            earlier.append(d["id"])
+        if sc["level"] == "module":
+            mod_names += earlier
+    renamed = 0
+    if "same_scope_nested_name_clash" in exclude:
+        for sc in spec["scopes"]:
+            for d in sc["defs"]:
+                for n in d["nested"]:
+                    if n["cap"] or not n["rec"] or n["name"] in SC_PRIVATE:
+                        continue
+                    if sc["level"] == "module":
+                        clash = True   # the module namespace is what every definition of the module reads
+                    else:
+                        others = set()
+                        for d2 in sc["defs"]:
+                            if d2 is not d:
+                                others |= set(d2["uses"]) | {m["calls"] for m in d2["nested"]}
+                        clash = n["name"] in others and n["name"] not in sc["shadows"]
+                    if clash:
+                        free = [p for p in SC_PRIVATE + ["p3", "p4", "p5"] if p not in {m["name"] for m in d["nested"]}]
+                        n["name"] = free[0]
+                        renamed += 1
+    return spec, renamed
+
+
+def scoped_index(spec):
+    """id -> (scope index, definition)"""
+    return {d["id"]: (si, d) for si, sc in enumerate(spec["scopes"]) for d in sc["defs"]}
+
+
+def scoped_render(spec):
+    idx = scoped_index(spec)
+    out = []
+    for i, g in enumerate(SC_GLOBALS):
+        out += ["@guppy", f"def {g}(x: int) -> int:", f"    return x * {i + 2} + {i + 1}", ""]
+
+    def render_def(d, ind):
+        L = [ind + "@guppy"]
+        if d["noarg"]:
+            L += [ind + f"def {d['id']}() -> int:", ind + "    x = 3"]
+        else:
+            L += [ind + f"def {d['id']}(x: int) -> int:"]
+        L.append(ind + "    y = x + 1")
+        for n in d["nested"]:
+            cap = " + y" if n["cap"] else ""
+            L.append(ind + f"    def {n['name']}(k: int) -> int:")
+            if n["rec"]:
+                L += [ind + "        if k <= 0:", ind + f"            return 1{cap}",
+                      ind + f"        return {n['name']}(k - 1) + " + (f"{n['calls']}(k)" if n["calls"] else "1")]
+            else:
+                L.append(ind + "        return " + (f"{n['calls']}(k)" if n["calls"] else "k") + f" + 2{cap}")
+        L.append(ind + "    r = y")
+        for n in d["nested"]:
+            L.append(ind + f"    r = r + {n['name']}(x)")
+        for u in d["uses"]:
+            L.append(ind + f"    r = r + {u}(y)")
+        for c in d["calls_defs"]:
+            L.append(ind + f"    r = r + {c}(" + ("" if idx[c][1]["noarg"] else "r") + ")")
+        L += [ind + "    return r", ""]
+        return L
+
+    for si, sc in enumerate(spec["scopes"]):
+        if sc["level"] == "module":
+            for d in sc["defs"]:
+                out += render_def(d, "")
+            continue
+        out.append(f"def _scope{si}():")
+        for k, g in enumerate(sc["shadows"]):
+            out += ["    @guppy", f"    def {g}(x: int) -> int:", f"        return x - {7 + si + k}", ""]
+        for d in sc["defs"]:
+            out += render_def(d, "    ")
+        ids = [d["id"] for d in sc["defs"]]
+        out += [f"    return [{', '.join(ids)}]", "", f"{', '.join(ids)}, = _scope{si}()", ""]
+    return "\n".join(out) + "\n"
+
+
+def scoped_closure(spec, did):
+    """definitions checked when `did` is checked: itself and everything it calls (transitively)"""
+    idx = scoped_index(spec)
+    seen, todo = [], [did]
+    while todo:
+        x = todo.pop()
+        if x in idx and x not in seen:
+            seen.append(x)
+            todo += idx[x][1]["calls_defs"]
+    return seen
+
+
+def scoped_leak_class(spec, earlier, did):
+    """root-cause class of a history-dependent outcome of `did`: does a definition processed earlier
+    hold a non-capturing recursive nested function whose name `did` (or something it calls) uses as a
+    global name?  -> "" | ".nested_name_leak.same_scope" | ".nested_name_leak.other_scope" """
+    if spec is None:
+        return ""
+    idx = scoped_index(spec)
+    if did not in idx:
+        return ""
+    published = set()   # (scope index, name)
+    for e in earlier:
+        for x in scoped_closure(spec, e):
+            si, d = idx[x]
+            published |= {(si, n["name"]) for n in d["nested"] if n["rec"] and not n["cap"]}
+    best = ""
+    for x in scoped_closure(spec, did):
+        si, d = idx[x]
+        reads = set(d["uses"]) | {n["calls"] for n in d["nested"]}
+        for (pi, name) in published:
+            if name in reads:
+                if pi == si or spec["scopes"][pi]["level"] == "module":
+                    return ".nested_name_leak.same_scope"
+                best = ".nested_name_leak.other_scope"
+    return best
+
+
+def scoped_classes(spec):
+    """which of the targeted input classes a (normalised) spec contains"""
+    out = set()
+    for si, sc in enumerate(spec["scopes"]):
+        for d in sc["defs"]:
+            plain = [n for n in d["nested"] if not n["cap"]]
+            if len({n["calls"] for n in plain if n["calls"]}) >= 2:
+                out.add("several_pending_nested")
+            if any(n["cap"] and n["rec"] for n in d["nested"]):
+                out.add("capturing_recursive_nested")
+            for n in plain:
+                if not n["rec"] or n["name"] in SC_PRIVATE:
+                    continue
+                for sj, sc2 in enumerate(spec["scopes"]):
+                    for d2 in sc2["defs"]:
+                        if d2 is not d and n["name"] in set(d2["uses"]) | {m["calls"] for m in d2["nested"]}:
+                            if sj != si and sc["level"] == "local":
+                                out.add("nested_name_used_in_other_scope")
+                            elif n["name"] in sc["shadows"]:
+                                out.add("nested_name_is_scope_local")
+                            else:
+                                out.add("nested_name_used_in_same_scope")
+    if any(sc["shadows"] for sc in spec["scopes"]):
+        out.add("local_shadows_module_function")
+    return out
+
+
 GOOD = ["gen", "useboxes", "closure", "ct", "ct2", "ov_i", "ov", "arrs", "quantum", "lenof", "main", "hi", "g0", "g1"]
 BAD = ["bad_type", "bad_lin", "bad_ct_py", "bad_ct_guppy", "bad_pycall", "bad_undef", "calls_bad", "calls_two_bad",
        "uses_bad_struct", "uses_bad_struct2", "makes_bad_struct", "uses_ov2", "bad_first", "bad_second"]
@@ -337,8 +542,9 @@ def applicable(op, d):
     return True
 
 
-def judge_history(pool, history, refs):
-    """-> None or (bucket, detail)"""
+def judge_history(pool, history, refs, scoped=None):
+    """-> None or (bucket, detail); `scoped` = normalised spec of the scoped pool section (only used to
+    name the root-cause class of a mismatch)"""
     got = run_child(pool, history, "h")
     if len(got) != len(history):
         return ("history.truncated", f"{len(got)} outcomes for {len(history)} steps")
@@ -354,21 +560,22 @@ def judge_history(pool, history, refs):
             failed_before = [h for h, o in zip(history[:i], got[:i]) if o[0] != "ok"]
             kind = f"{ref[0]}->{out[0]}"
             cause = "after_failure" if failed_before else ("repeat" if step in history[:i] else "after_success")
-            return (f"history_dependent.{kind}.{cause}",
+            leak = scoped_leak_class(scoped, [h[1] for h in history[:i] if h[0] != "redefine"], step[1])
+            return (f"history_dependent.{kind}.{cause}{leak}",
                     f"step {i} {step} gave\n  {str(out)[:700]}\nbut in a fresh session it gives\n  {str(ref)[:700]}\nhistory: {history}")
     return None
 
 
-def references(pool, ops):
+def references(pool, ops, defs=None):
     refs = {}
-    for d in DEFS:
+    for d in (defs or DEFS):
         for op in ops:
             out = run_child(pool, [[op, d]], "ref")
             refs[(op, d)] = out[0]
     return refs
 
 
-def shared_references(ctx, pool, ops):
+def shared_references(ctx, pool, ops, defs=None):
     """the shards split the (op, definition) reference runs among themselves (one fresh interpreter
     each) and exchange them through files in the run's work directory"""
     import time
@@ -376,7 +583,7 @@ def shared_references(ctx, pool, ops):
     work = os.environ.get("VERIF_WORK") or os.path.join(harness.VERIF, ".work")
     d = os.path.join(work, f"c11refs_{ctx.seed}_{ctx.tier}")
     os.makedirs(d, exist_ok=True)
-    todo = [(op, df) for df in DEFS for op in ops]
+    todo = [(op, df) for df in (defs or DEFS) for op in ops]
     mine = {}
     for k, (op, df) in enumerate(todo):
         if k % ctx.nshards == ctx.shard:
@@ -403,13 +610,13 @@ def shared_references(ctx, pool, ops):
     return None
 
 
-def minimise(pool, history, refs, bucket):
+def minimise(pool, history, refs, bucket, scoped=None):
     """greedy step removal keeping the same bucket"""
     h = list(history)
     i = 0
     while i < len(h) - 1 and len(h) > 1:
         cand = h[:i] + h[i + 1:]
-        r = judge_history(pool, cand, refs)
+        r = judge_history(pool, cand, refs, scoped)
         if r and r[0] == bucket:
             h = cand
         else:
@@ -422,7 +629,7 @@ def replay(case):
     for step in case["history"]:
         if step[0] != "redefine" and (step[0], step[1]) not in refs:
             refs[(step[0], step[1])] = run_child(case["pool"], [step], "ref")[0]
-    return judge_history(case["pool"], case["history"], refs)
+    return judge_history(case["pool"], case["history"], refs, case.get("scoped"))
 
 
 def worker(ctx):
@@ -445,10 +652,26 @@ def worker(ctx):
         body += "\n@guppy\ndef g1(x: int) -> int:\n    return x\n"
     if "def g0" not in body:
         body += "\n@guppy\ndef g0(x: int) -> int:\n    return x\n"
-    pool = POOL_HEAD + "\n" + body
+    # the scoped section: definitions created in local Python scopes / holding nested functions (same in
+    # every shard; a pure function of the seed).  The first draws of a Hypothesis run are the simplest
+    # ones, so a few are drawn and the last one that holds the targeted classes is kept.
+    specs = []
+    want = {"several_pending_nested", "nested_name_used_in_other_scope"}
+    harness.hyp_search(pool_ctx, scoped_specs(st).map(scoped_normalise).filter(lambda t: want <= scoped_classes(t[0])),
+                       specs.append, max_examples=6, chunk=6, time_frac=1.0, extra_seed=5)
+    if not specs:
+        ctx.harness_error("no scoped pool section drawn")
+        return
+    scoped, renamed = specs[-1]
+    if renamed and ctx.shard == 0:
+        ctx.exclude("same_scope_nested_name_clash: nested function renamed to a private name", renamed)
+    sc_defs = sorted(scoped_index(scoped))
+    all_defs = DEFS + sc_defs
+    pool = POOL_HEAD + "\n" + body + "\n" + scoped_render(scoped)
+    ctx.notes["scoped_section"] = {"spec": scoped, "classes": sorted(scoped_classes(scoped))}
     ops = OPS + (["emulate"] if ctx.params.get("emulate") else [])
     ref_ops = OPS
-    refs = shared_references(ctx, pool, ref_ops)
+    refs = shared_references(ctx, pool, ref_ops, all_defs)
     if refs is None:
         return
     if ctx.params.get("emulate"):
@@ -485,18 +708,32 @@ def worker(ctx):
             o1, o2 = draw(st.permutations(OPS))[:2]
             i = draw(st.integers(0, len(h)))
             h[i:i] = [[o1, d], [o2, d]]
+        # definitions of the scoped section (local Python scopes, nested functions) in between
+        for _ in range(draw(st.integers(0, 4))):
+            h.insert(draw(st.integers(0, len(h))), [draw(st.sampled_from(OPS)), draw(st.sampled_from(sc_defs))])
         return h
 
     found = {}
+    scoped_ix = scoped_index(scoped)
 
     def body_fn(h):
-        r = judge_history(pool, h, refs)
+        r = judge_history(pool, h, refs, scoped)
         named = [s for s in h if s[0] != "redefine"]
+        sc_steps = [s[1] for s in named if s[1] in sc_defs]
+        sc_labels = []
+        if sc_steps:
+            sc_labels.append("scoped")
+        if len(set(sc_steps)) >= 2:
+            sc_labels.append("scoped:two_definitions")
+        if any(scoped_leak_class(scoped, sc_steps[:k], sc_steps[k]) for k in range(1, len(sc_steps))):
+            sc_labels.append("scoped:nested_name_then_user")
+        if any(len([n for n in scoped_ix[d][1]["nested"] if not n["cap"]]) >= 2 for d in sc_steps):
+            sc_labels.append("scoped:several_nested")
         repeat = len({tuple(s) for s in named}) < len(named)
         fail_then_ok = any(s[1] in BAD for s in named[:-1]) and any(s[1] in GOOD for s in named[1:])
         ctx.case(h, len(h) >= 4 and (repeat or fail_then_ok),
                  labels=[f"len:{min(len(h), 12)}"] + (["repeat"] if repeat else []) + (["fail_then_good"] if fail_then_ok else [])
-                 + sorted({"op:" + s[0] for s in h}),
+                 + sorted({"op:" + s[0] for s in h}) + sc_labels,
                  sample={"history": h})
         if r:
             if r[0] not in found or len(h) < len(found[r[0]][0]):
@@ -505,11 +742,11 @@ def worker(ctx):
     harness.hyp_search(ctx, histories(), body_fn, max_examples=ctx.params["n"], chunk=10, time_frac=0.7)
     for bucket, (h, detail) in found.items():
         if not ctx.out_of_time(0.9):
-            h2 = minimise(pool, h, refs, bucket)
-            r = judge_history(pool, h2, refs)
+            h2 = minimise(pool, h, refs, bucket, scoped)
+            r = judge_history(pool, h2, refs, scoped)
             if r and r[0] == bucket:
                 h, detail = h2, r[1]
-        ctx.violation(bucket, {"pool": pool, "history": h}, detail)
+        ctx.violation(bucket, {"pool": pool, "history": h, "scoped": scoped}, detail)
 
 
 SPEC = harness.Spec(
